@@ -26,6 +26,10 @@ pub struct K17 {
     pub quit_at_us: u64,
     pub quit_ctrl_c: bool,
     pub proc_delay_us: Vec<u64>,
+    /// with --retry-tcp: the server drops the connection at this time and re-accepts (after some
+    /// refused attempts); the operator keeps acting meanwhile
+    #[serde(default)]
+    pub reconnect_at_us: Option<u64>,
     /// sub-batch that only looks at the exit status of an invalid command line
     pub invalid_cli: Option<Vec<String>>,
 }
@@ -92,7 +96,7 @@ pub const INVALID_CLI: [&[&str]; 18] = [
 pub fn generate(rng: &mut Rng, fault_free: bool) -> K17 {
     if !fault_free && rng.chance(0.08) {
         let a = *rng.pick(&INVALID_CLI);
-        return K17 { args: vec![], cols: 80, rows: 24, refused_first: 0, lines: vec![], events: vec![], quit_at_us: 100_000, quit_ctrl_c: false, proc_delay_us: vec![], invalid_cli: Some(a.iter().map(|s| s.to_string()).collect()) };
+        return K17 { args: vec![], cols: 80, rows: 24, refused_first: 0, lines: vec![], events: vec![], quit_at_us: 100_000, quit_ctrl_c: false, proc_delay_us: vec![], reconnect_at_us: None, invalid_cli: Some(a.iter().map(|s| s.to_string()).collect()) };
     }
     let (cols, rows) = if fault_free {
         *rng.pick(&[(80u16, 24u16), (120, 40)])
@@ -121,7 +125,8 @@ pub fn generate(rng: &mut Rng, fault_free: bool) -> K17 {
     if rng.chance(0.4) {
         args.push("--locations".into());
         for i in 0..1 + rng.below(3) {
-            args.push(format!("(L{i},{:.2},{:.2})", RX.0 + rng.f64_range(-0.5, 0.5), RX.1 + rng.f64_range(-0.5, 0.5)));
+            let name = if rng.chance(0.4) { (*rng.pick(&["Troms\u{f8}", "Besan\u{e7}on", "\u{141}\u{f3}d\u{17a}", "\u{6771}\u{4eac}", "Z\u{fc}rich", "K\u{f8}benhavn Lufthavn", "\u{e9}", "a b"])).to_string() } else { format!("L{i}") };
+            args.push(format!("({name},{:.2},{:.2})", RX.0 + rng.f64_range(-0.5, 0.5), RX.1 + rng.f64_range(-0.5, 0.5)));
         }
     }
     let deep = simcore::deep() && rng.chance(0.33);
@@ -165,8 +170,32 @@ pub fn generate(rng: &mut Rng, fault_free: bool) -> K17 {
     let mut events: Vec<KEvent> = vec![];
     let mut t = rng.below(200_000);
     let (mut w, mut h) = (cols, rows);
+    let mut held: Option<(KEv, u32)> = None;
     for _ in 0..nev {
-        let ev = gen_event(rng, w, h);
+        // a held key / spinning wheel: the same event repeated 5..30 times in quick succession
+        let ev = match held.take() {
+            Some((ev, n)) => {
+                if n > 1 {
+                    held = Some((ev.clone(), n - 1));
+                }
+                ev
+            }
+            None => {
+                let ev = gen_event(rng, w, h);
+                if !fault_free && rng.chance(0.06) {
+                    let rep = match rng.below(8) {
+                        0 | 1 => key("c:-"),
+                        2 | 3 => key("c:+"),
+                        4 => key("Down"),
+                        5 => key(*rng.pick(&["Up", "Left", "Right"])),
+                        6 => KEv::Mouse { kind: "ScrollDown".into(), col: 30, row: 10 },
+                        _ => KEv::Mouse { kind: "ScrollUp".into(), col: 30, row: 10 },
+                    };
+                    held = Some((rep, 5 + rng.below(26) as u32));
+                }
+                ev
+            }
+        };
         if let KEv::Resize { w: nw, h: nh } = &ev {
             if fault_free {
                 continue;
@@ -181,7 +210,8 @@ pub fn generate(rng: &mut Rng, fault_free: bool) -> K17 {
     events.retain(|e| e.at_us < quit_at_us);
     let refused_first = if !fault_free && rng.chance(0.2) { 1 + rng.below(8) as u32 } else { 0 };
     let proc_delay_us = if !fault_free && rng.chance(0.2) { (0..6).map(|_| *rng.pick(&[0u64, 0, 30_000, 200_000])).collect() } else { vec![] };
-    K17 { args, cols, rows, refused_first, lines, events, quit_at_us, quit_ctrl_c: rng.chance(0.3), proc_delay_us, invalid_cli: None }
+    let reconnect_at_us = if !fault_free && args.iter().any(|a| a == "--retry-tcp") && rng.chance(0.6) { Some(100_000 + rng.below(duration_us)) } else { None };
+    K17 { args, cols, rows, refused_first, lines, events, quit_at_us, quit_ctrl_c: rng.chance(0.3), proc_delay_us, reconnect_at_us, invalid_cli: None }
 }
 
 pub fn compile(sc: &K17) -> KChild {
@@ -189,13 +219,15 @@ pub fn compile(sc: &K17) -> KChild {
     for _ in 0..sc.refused_first {
         connects.push(KConnect { outcome: KOutcome::Refuse, segments: vec![], close_at_us: None, rst: false, eintr_reads: vec![] });
     }
-    connects.push(KConnect {
-        outcome: KOutcome::Accept,
-        segments: sc.lines.iter().map(|(t, hex)| KSegment { at_us: *t, hex: wire::hex(format!("*{hex};\n").as_bytes()) }).collect(),
-        close_at_us: None,
-        rst: false,
-        eintr_reads: vec![],
-    });
+    let seg = |t: u64, hex: &str| KSegment { at_us: t, hex: wire::hex(format!("*{hex};\n").as_bytes()) };
+    match sc.reconnect_at_us.filter(|_| sc.args.iter().any(|a| a == "--retry-tcp")) {
+        Some(rc) => {
+            connects.push(KConnect { outcome: KOutcome::Accept, segments: sc.lines.iter().filter(|(t, _)| *t < rc).map(|(t, h)| seg(*t, h)).collect(), close_at_us: Some(rc), rst: false, eintr_reads: vec![] });
+            connects.push(KConnect { outcome: KOutcome::Refuse, segments: vec![], close_at_us: None, rst: false, eintr_reads: vec![] });
+            connects.push(KConnect { outcome: KOutcome::Accept, segments: sc.lines.iter().filter(|(t, _)| *t >= rc).map(|(t, h)| seg(*t - rc, h)).collect(), close_at_us: None, rst: false, eintr_reads: vec![] });
+        }
+        None => connects.push(KConnect { outcome: KOutcome::Accept, segments: sc.lines.iter().map(|(t, h)| seg(*t, h)).collect(), close_at_us: None, rst: false, eintr_reads: vec![] }),
+    }
     let mut events = sc.events.clone();
     events.sort_by_key(|e| e.at_us);
     let q = if sc.quit_ctrl_c { KEv::Key { code: "c:c".into(), ctrl: true, shift: false, alt: false } } else { KEv::Key { code: "c:q".into(), ctrl: false, shift: false, alt: false } };
@@ -320,6 +352,10 @@ pub fn execute(sc: &K17) -> Outcome {
     if !sc.proc_delay_us.is_empty() {
         out.fault("slow_iteration");
     }
+    if p.log.iter().filter(|l| matches!(l, LogEv::Connect { what, .. } if what.starts_with("accept"))).count() >= 2 {
+        out.fault("server_drop_and_reconnect");
+        out.probe("operator_events_after_reconnect");
+    }
     if sc.args.iter().any(|a| a.starts_with("--filter-time=") && a != "--filter-time=120") && !sc.lines.is_empty() {
         out.probe("aircraft_expire_during_run");
     }
@@ -383,6 +419,9 @@ pub fn shrink(sc: &K17) -> Vec<K17> {
     if sc.quit_ctrl_c {
         c.push(K17 { quit_ctrl_c: false, ..sc.clone() });
     }
+    if sc.reconnect_at_us.is_some() {
+        c.push(K17 { reconnect_at_us: None, ..sc.clone() });
+    }
     // earlier quit = shorter run
     let last_ev = sc.events.iter().map(|e| e.at_us).max().unwrap_or(0);
     if sc.quit_at_us > last_ev + 200_000 {
@@ -397,6 +436,7 @@ pub fn describe(sc: &K17) -> Value {
         "traffic_lines": sc.lines.len(), "events_total": sc.events.len(),
         "first_events": sc.events.iter().take(12).map(|e| format!("t={}us {:?}", e.at_us, e.ev)).collect::<Vec<_>>(),
         "quit": format!("{} at {}us", if sc.quit_ctrl_c { "ctrl-c" } else { "q" }, sc.quit_at_us),
+        "server_drops_and_reaccepts_at_us": sc.reconnect_at_us,
         "invalid_cli": sc.invalid_cli,
     })
 }
